@@ -252,10 +252,14 @@ impl Gen {
     fn tick(&mut self, ver: i64) {
         let r = &mut self.rng;
         if r.gen_range(0..3) == 0 {
-            let dt = match r.gen_range(0..10) {
+            let dt = match r.gen_range(0..40) {
+                // boundary values (the spec predicts TickOverflow where the tick would leave 31 bits)
+                39 => [i32::MAX, i32::MAX - 1, i32::MAX - 2, 63, 64, 1][r.gen_range(0..6)],
+                _ => match r.gen_range(0..10) {
                 0..=5 => 0,
                 6..=8 => r.gen_range(1..200),
                 _ => r.gen_range(1..100000),
+                },
             };
             self.items.push(json!({"k": "ts", "a": dt}));
         }
